@@ -15,7 +15,7 @@ from harness.props.c01 import sig_case
 
 def run(tier: str, seed: int, rep: Report, model: Model) -> dict:
     rnd = rng_for("C07", seed)
-    n = depth(tier, 1000, 10000)
+    n = depth(tier, 1000, 40000)
     rep.rule = ("conforming contexts with a return hint, one fault placed in a single argument position or only in the return value "
                 "(resize / add / drop axis / dtype / None / non-array); distinct = distinct case; non-trivial = the fault makes the context inconsistent")
     cases, where = [], []
